@@ -21,6 +21,7 @@ import MTVerif.Model.EvalAnno
 import MTVerif.Model.TDStub
 import MTVerif.Model.ModuleBuild
 import MTVerif.Model.Enforce
+import MTVerif.Model.FuncDef
 namespace MT
 open Sexp
 
@@ -241,6 +242,46 @@ def handle (st : DState) (req : Sexp) : Except String (DState × Sexp) :=
       .ok (st, .list [.atom (toString ps.length),
                       .atom (toString (ps.filter (fun p => p.2 != .typeOf && p.2 != .hashClass && !Contain.isExact p.1)).length),
                       .atom (toString (ps.filter (fun p => p.2 == .hashClass)).length)])
+  | .list (.atom "shrinkTraced" :: k :: trs) => do
+      -- C01 / C14: `shrink_traced_types(traces, k)` for the decoded traces of one function: ((args (name type) ...) ret yld) ...
+      let opt (x : Sexp) : Except String (Option Ty) := match x with | .atom "none" => .ok none | x => (tyOf x).map some
+      let traces ← trs.mapM (fun x => match x with
+        | .list [.list args, r, y] => do .ok ({ args := ← args.mapM fieldOf, ret := ← opt r, yld := ← opt y } : FuncDef.CTrace)
+        | _ => .error "bad trace")
+      let out := FuncDef.shrinkTraced (← natOf k) traces
+      let so (o : Option Ty) : Sexp := match o with | none => .atom "none" | some t => sexpOfTy t
+      .ok (st, .list [.list (out.1.map sexpOfField), so out.2.1, so out.2.2])
+  | .list [.atom "definition", .list rws, k, stg, .list params, retSrc, kind, .list trs] => do
+      -- C13 / C12: `get_updated_definition(func, traces, k, rewriter, strategy)`; params = ((name src) ...), src = none | id
+      let opt (x : Sexp) : Except String (Option Ty) := match x with | .atom "none" => .ok none | x => (tyOf x).map some
+      let optN (x : Sexp) : Except String (Option Nat) := match x with | .atom "none" => .ok none | x => (natOf x).map some
+      let st' ← (match stg with | .atom "replicate" => .ok Anno.Strategy.replicate | .atom "ignore" => .ok .ignore
+                                | .atom "omit" => .ok .omit | _ => .error "bad strategy")
+      let kd ← (match kind with
+        | .atom "module" => .ok FuncDef.FKind.module | .atom "class" => .ok .cls | .atom "instance" => .ok .instance
+        | .atom "static" => .ok .static | .atom "property" => .ok .property | .atom "cachedProperty" => .ok .cachedProperty
+        | _ => .error "bad kind")
+      let ps ← params.mapM (fun x => match x with
+        | .list [n, sa] => do .ok ({ name := ← strOf n, src := ← optN sa } : FuncDef.SrcParam)
+        | _ => .error "bad parameter")
+      let traces ← trs.mapM (fun x => match x with
+        | .list [.list args, r, y] => do .ok ({ args := ← args.mapM fieldOf, ret := ← opt r, yld := ← opt y } : FuncDef.CTrace)
+        | _ => .error "bad trace")
+      let f : FuncDef.FuncSrc := { params := ps, retSrc := ← optN retSrc, kind := kd, isAsync := false }
+      let d := FuncDef.updatedDefinition st.H (← rws.mapM rwOf) (← natOf k) st' f traces
+      let sa (a : Option Anno.Ann) : Sexp := match a with
+        | none => .atom "none" | some (.src i) => .list [.atom "src", .atom (toString i)] | some (.ty t) => .list [.atom "ty", sexpOfTy t]
+      .ok (st, .list [.list (d.params.map (fun p => .list [.str p.1, sa p.2])), sa d.ret,
+                      .list ((FuncDef.headLines d.kind d.isAsync "f").map .str), sexpOfBool d.kind.hasSelf])
+  | .list [.atom "kindOf", dot, desc] => do
+      let d ← (match desc with
+        | .atom "plain" => .ok FuncDef.Desc.plain | .atom "classmethod" => .ok .classmethod | .atom "staticmethod" => .ok .staticmethod
+        | .atom "property" => .ok .property | .atom "cachedProperty" => .ok .cachedProperty | _ => .error "bad descriptor")
+      let kd := FuncDef.kindOf (dot == .atom "true") d
+      let nm : String := match kd with
+        | .module => "module" | .cls => "class" | .instance => "instance" | .static => "static" | .property => "property"
+        | .cachedProperty => "cachedProperty"
+      .ok (st, .list [.atom nm, sexpOfBool kd.hasSelf, .list ((FuncDef.headLines kd false "f").map .str)])
   | .list [.atom "updateArg", stg, src, traced, isSelf] => do
       let st' ← (match stg with | .atom "replicate" => .ok Anno.Strategy.replicate | .atom "ignore" => .ok .ignore
                                 | .atom "omit" => .ok .omit | _ => .error "bad strategy")
